@@ -363,7 +363,9 @@ def _lists(unit, ctx):
     src = unit["src"]
     its = struct_items(ctx.seed)
     usable = [i for i, it in enumerate(its) if not it.is_ace or it.acex.valid(src)]
-    cfg = dict(platform=src, version=G.VERSIONS[ctx.seed % 4], port_nr=False, protocol_nr=False)
+    # grouped lists always carry the IOS 15 table (the one that differs from the default table)
+    ver = "15.2(4)M" if unit["grouped"] else G.VERSIONS[ctx.seed % 4]
+    cfg = dict(platform=src, version=ver, port_nr=False, protocol_nr=False)
     if unit["first"] is None:
         for i in usable:
             check_acl([its[i]], cfg, unit["grouped"], ctx)
